@@ -55,6 +55,7 @@ def run(ctx):
     complaints = L.run_monitor(ctx, "c10", TRANSCRIPT)
     L.handle_complaints(ctx, complaints, sig_of)
     ctl_cases = controller_loop(ctx, exe)
+    cfg_rows = grace_as_configured(ctx)
     cases = L.parse_cases("%s/%s" % (ctx.out, TRANSCRIPT))
     verdicts = {}
     nops = 0
@@ -73,9 +74,40 @@ def run(ctx):
         "verdict_distribution": verdicts, "traces_validated_against_impl": len(cases) + len(ctl_cases),
         "controller_histories": len(ctl_cases),
         "controller_rule": "buyer contract of 600 / 900 / 1500 s, share timeout 60 / 120 s, cycle 30 / 60 s: a healthy stretch of shares, then shares stop / the measured rate drops / somebody else closes / nothing; the node refuses 0..5 transactions, or all of them while somebody else closes the contract 5..50 s into the retry loop; 15% end with a shutdown",
+        "grace_period_configurations": cfg_rows,
         "controller_outcomes": {k: sum(1 for h, ls in ctl_cases if any(k in l for l in ls)) for k in ("werr=sharetimeout", "werr=underdelivery", "werr=closed", "werr=ended", "ok=0", "ok=1", "closedevent")},
     })
     ctx.samples += [{"case": h, "lines": lines[:4]} for h, lines in cases[2:5]]
+
+
+def grace_as_configured(ctx):
+    """the default start-up grace period covers one delivery cycle, whatever cycle is configured"""
+    exe = L.build_harness(ctx, "config")
+    if not exe:
+        return 0
+    rc, out = L.run_harness(ctx, exe, "TestVerifC10Defaults$", env={}, timeout=120)
+    if rc != 0:
+        ctx.tie_failures.append("config harness run failed (rc=%d): %s" % (rc, out[-300:]))
+        return 0
+    n, op = 0, ""
+    for h, lines in L.parse_cases(ctx.out + "/c10cfg.impl.txt"):
+        for l in lines:
+            if l.startswith("> defaults"):
+                op = l
+                asked = dict(t.split("=") for t in l.split()[2:])
+            elif l.startswith("< cycle="):
+                n += 1
+                got = dict(t.split("=") for t in l.split()[1:])
+                if int(asked["grace"]) == 0 and int(got["grace"]) < int(got["cycle"]):
+                    L.violation(ctx, "c10:default-grace-shorter-than-a-cycle",
+                                "with a delivery cycle of %d s and the start-up grace period left unset, the grace period is %d s: a seller that reconnects at its next cycle after a validator restart is closed for the start-up gap alone" % (int(got["cycle"]) // 10**9, int(got["grace"]) // 10**9),
+                                {"clause": "the grace period never causes a close", "case": h, "ops": [op]})
+                    return n
+                if int(asked["grace"]) != 0 and got["grace"] != asked["grace"]:
+                    L.violation(ctx, "c10:configured-grace-not-kept", "a configured start-up grace period of %s ns became %s ns" % (asked["grace"], got["grace"]),
+                                {"clause": "the grace period never causes a close", "case": h, "ops": [op]})
+                    return n
+    return n
 
 
 CTL_TEST, CTL_TRANSCRIPT = "TestVerifBuyerCtl$", "buyerctl.impl.txt"
